@@ -108,7 +108,8 @@ TraceAddDir ==
    /\ ResIs /\ PosOk
 TraceAddSymlink ==
    /\ IsEvent("AddSymlink")
-   /\ LET o == OptsOf(ev.o) cs == CsFrom(ev.pos - ev.target.len - HdrLen(ev.name, o.large)) IN
+   \* (with a password the target stays in the cipher's buffer until the next call closes the entry: it is not in the sink yet)
+   /\ LET o == OptsOf(ev.o) cs == CsFrom(ev.pos - (IF o.enc /\ ev.r = "ok" THEN 0 ELSE ev.target.len) - HdrLen(ev.name, o.large)) IN
         CloseGuard(cs, ev.name.len) /\ AddSymlink(ev.name, ev.target, o, cs)
    /\ ResIs /\ PosOk
 SrcOf(s) == [method |-> s.method, crc |-> s.crc, usize |-> s.usize, csize |-> s.csize,
